@@ -48,7 +48,8 @@ def make_directory(rng, conv, tier):
         fmt = rng.choice(fams)
         v = valid_sources(rng, fmt, 1)[0]
         valids.append((fmt, v))
-        files.append({'data': v.data, 'kind': 'valid:%s:%s' % (conv, fmt), 'ext': EXT[fmt], 'expect_las': getattr(v, 'expect_las', None)})
+        files.append({'data': v.data, 'kind': 'valid:%s:%s' % (conv, fmt), 'ext': EXT[fmt], 'expect_las': getattr(v, 'expect_las', None),
+                      'facts': {'frames_per_log_pass': (v.describe or {}).get('logpasses')} if isinstance(v.describe, dict) else {}})
     others = [f for f in sorted(provs) if f not in fams]
     for i in range(ndam):
         if rng.random() < 0.75 or not others:
